@@ -68,6 +68,15 @@ def special_form(ex, name, e, st):
             trace.emit(ex.W, s2.heap, vals[0], vals[1], vals[2] if len(vals) > 2 else 0, vals[3] if len(vals) > 3 else None)
             out.append((s2, mk_none()))
         return out
+    if name in trace.ACCESSORS and name not in st.locals and not e.args:
+        return [(st, trace.read(ex.W, st.heap, trace.ACCESSORS[name]))]
+    if name == 'set_probe':
+        out = []
+        for s, v in ex.ev(e.args[0], st):
+            s2 = s.copy()
+            s2.heap.write_global('$probe', ex.W.parse_type(trace.CELLS['$probe']), v)
+            out.append((s2, mk_none()))
+        return out
     if name == 'emit_kind':
         out = []
         for s, vals in ex.ev_many(e.args, st):
@@ -347,7 +356,19 @@ def str_join(ex, sep, arg, st):
     return [(st, mk_str(f(sep.term, seq.t[0], seq.t[1])))]
 
 
+def str_rsplit1(ex, recv, args, st):
+    """s.rsplit(sep, 1): a new list of one or two strings (contents opaque)"""
+    s2, r = ex.new_ref(st, 1)
+    n = z3.Int(fresh_name('nparts'))
+    s2 = s2.assume(z3.Or(n == 1, n == 2))
+    s2.heap.list_set_len(r, n)
+    s2.heap.list_set_arr(STR, r, [z3.Const(fresh_name('parts'), z3.ArraySort(I, Str))])
+    return [(s2, SV(TList(STR), [r]))]
+
+
 def str_split(ex, recv, name, args, st):
+    if name == 'rsplit' and len(args) == 2 and args[1].py == 1:
+        return str_rsplit1(ex, recv, args, st)
     """s.split(sep): a new list; its length and parts are named by the opaque spec functions split_count /
     split_part (CPython: at least one part; no separator inside a part is NOT assumed)."""
     if name != 'split' or len(args) != 1:
@@ -364,6 +385,18 @@ def str_split(ex, recv, name, args, st):
 
 
 def iter_descriptor(ex, v, st):
+    if isinstance(v.ty, TSet):
+        # iteration over a set: some enumeration e[0..n) of its elements, each exactly once (order unspecified)
+        ks = v.ty.k.comps()[0]
+        n = z3.Select(st.heap.get(st.heap.set_size_key())[0], v.term)
+        has = z3.Select(st.heap.get(st.heap.set_has_key(v.ty.k))[0], v.term)
+        arr = z3.Const(fresh_name('enum'), z3.ArraySort(I, ks))
+        idx = z3.Function(fresh_name('enum_idx'), ks, I)
+        k = z3.Int(fresh_name('k')); x = z3.Const(fresh_name('x'), ks)
+        ops.emit_fact(n >= 0)
+        ops.emit_fact(z3.ForAll([k], z3.Implies(z3.And(0 <= k, k < n), z3.And(z3.Select(has, z3.Select(arr, k)), idx(z3.Select(arr, k)) == k)), patterns=[z3.Select(arr, k)]))
+        ops.emit_fact(z3.ForAll([x], z3.Implies(z3.Select(has, x), z3.And(0 <= idx(x), idx(x) < n, z3.Select(arr, idx(x)) == x)), patterns=[idx(x)]))
+        return ('seq', n, lambda kk, h, arr=arr: SV(v.ty.k, [z3.Select(arr, kk)]), SV(TSeq(v.ty.k), [n, arr]))
     if isinstance(v.ty, TFunc) and isinstance(v.py.obj, tuple) and v.py.obj[0] == 'reversed':
         d = ex.seq_descriptor(v.py.obj[1], st)
         kind, n, get = d
@@ -438,6 +471,29 @@ def havoc_target(ex, m, cx, st, pre_heap):
                 st.pc.append(z3.ForAll([r], z3.Implies(z3.Select(conn_arr, r) != owner.term, z3.Select(na, r) == z3.Select(a, r)), patterns=[z3.Select(na, r)]))
                 new.append(na)
             st.heap.set(key, new)
+            return
+        if kind == 'each':
+            # each(seq, pkg.Class.field): that field of every element of the sequence (pre-state)
+            seq = ex.S.to_seq(ex.S.eval(e.args[0], cx), pre_heap)
+            fq = ast.unparse(e.args[1])
+            clsq, fname = fq.rsplit('.', 1)
+            decl = ex.W.field_decl(ex.W.cls_by_name(clsq), fname)
+            key = st.heap.field_key(decl[0], decl[1])
+            sk = z3.Function(fresh_name('elem_idx'), I, I)
+            r = z3.Int(fresh_name('r'))
+            member = z3.And(0 <= sk(r), sk(r) < seq.t[0], z3.Select(seq.t[1], sk(r)) == r)
+            new = []
+            for a in st.heap.get(key):
+                na = z3.Const(fresh_name('each'), a.sort())
+                st.pc.append(z3.ForAll([r], z3.Or(member, z3.Select(na, r) == z3.Select(a, r)), patterns=[z3.Select(na, r)]))
+                new.append(na)
+            st.heap.set(key, new)
+            pk = ('present', decl[0])
+            if pk in st.heap.sorts:
+                a = st.heap.get(pk)[0]
+                na = z3.Const(fresh_name('eachp'), a.sort())
+                st.pc.append(z3.ForAll([r], z3.Or(member, z3.Select(na, r) == z3.Select(a, r)), patterns=[z3.Select(na, r)]))
+                st.heap.set(pk, [na])
             return
         if kind == 'lists_of':
             # the lists that are values of the dict (pre-state): their length and elements may change
